@@ -68,6 +68,69 @@ enum SVal {
     Map(Option<usize>, Vec<(SVal, SVal)>),
     Struct(&'static str, usize, Vec<(&'static str, SVal)>),
     StructVariant(&'static str, u32, &'static str, usize, Vec<(&'static str, SVal)>),
+    /// `serializer.collect_str(&d)` where `d`'s Display writes these fragments, one write_str each
+    CollectStr(Vec<String>),
+    /// a Serialize impl that asks `serializer.is_human_readable()` and issues the first tree of
+    /// calls when the answer is true, the second otherwise
+    HumanReadable(Box<SVal>, Box<SVal>),
+    /// the std::net types, whose serde impls consult `is_human_readable()`
+    Net(NetVal),
+}
+
+#[derive(Debug, Clone)]
+enum NetVal {
+    V4(std::net::Ipv4Addr),
+    V6(std::net::Ipv6Addr),
+    Ip(std::net::IpAddr),
+    Sock(std::net::SocketAddr),
+}
+
+impl NetVal {
+    fn text(&self) -> String {
+        match self {
+            NetVal::V4(a) => a.to_string(),
+            NetVal::V6(a) => a.to_string(),
+            NetVal::Ip(a) => a.to_string(),
+            NetVal::Sock(a) => a.to_string(),
+        }
+    }
+    /// (kind, address octets, port)
+    fn parts(&self) -> (&'static str, Vec<u8>, u16) {
+        use std::net::{IpAddr, SocketAddr};
+        match self {
+            NetVal::V4(a) => ("v4", a.octets().to_vec(), 0),
+            NetVal::V6(a) => ("v6", a.octets().to_vec(), 0),
+            NetVal::Ip(IpAddr::V4(a)) => ("ip4", a.octets().to_vec(), 0),
+            NetVal::Ip(IpAddr::V6(a)) => ("ip6", a.octets().to_vec(), 0),
+            NetVal::Sock(SocketAddr::V4(a)) => ("sa4", a.ip().octets().to_vec(), a.port()),
+            NetVal::Sock(SocketAddr::V6(a)) => ("sa6", a.ip().octets().to_vec(), a.port()),
+        }
+    }
+    fn make(kind: &str, oct: &[u8], port: u16) -> NetVal {
+        use std::net::{IpAddr, Ipv4Addr, Ipv6Addr, SocketAddr};
+        let v4 = || Ipv4Addr::new(oct[0], oct[1], oct[2], oct[3]);
+        let v6 = || Ipv6Addr::from(<[u8; 16]>::try_from(oct).unwrap());
+        match kind {
+            "v4" => NetVal::V4(v4()),
+            "v6" => NetVal::V6(v6()),
+            "ip4" => NetVal::Ip(IpAddr::V4(v4())),
+            "ip6" => NetVal::Ip(IpAddr::V6(v6())),
+            "sa4" => NetVal::Sock(SocketAddr::new(IpAddr::V4(v4()), port)),
+            "sa6" => NetVal::Sock(SocketAddr::new(IpAddr::V6(v6()), port)),
+            k => panic!("bad net kind {k}"),
+        }
+    }
+}
+
+/// Display that hands its text to the formatter in the given pieces.
+struct Frags<'a>(&'a [String]);
+impl std::fmt::Display for Frags<'_> {
+    fn fmt(&self, f: &mut std::fmt::Formatter<'_>) -> std::fmt::Result {
+        for s in self.0 {
+            f.write_str(s)?;
+        }
+        Ok(())
+    }
 }
 
 impl Serialize for SVal {
@@ -145,6 +208,18 @@ impl Serialize for SVal {
                 }
                 s.end()
             }
+            SVal::CollectStr(frags) => ser.collect_str(&Frags(frags)),
+            SVal::HumanReadable(hr, compact) => {
+                if ser.is_human_readable() {
+                    hr.serialize(ser)
+                } else {
+                    compact.serialize(ser)
+                }
+            }
+            SVal::Net(NetVal::V4(a)) => a.serialize(ser),
+            SVal::Net(NetVal::V6(a)) => a.serialize(ser),
+            SVal::Net(NetVal::Ip(a)) => a.serialize(ser),
+            SVal::Net(NetVal::Sock(a)) => a.serialize(ser),
         }
     }
 }
@@ -221,6 +296,13 @@ fn parse(v: &Value) -> SVal {
         ),
         "st" => SVal::Struct(hname(&a[1]), us(&a[2]), flds(&a[3])),
         "sv" => SVal::StructVariant(hname(&a[1]), us(&a[2]) as u32, hname(&a[3]), us(&a[4]), flds(&a[5])),
+        "cs" => SVal::CollectStr(a[1].as_array().unwrap().iter().map(hstr).collect()),
+        "hr" => SVal::HumanReadable(Box::new(parse(&a[1])), Box::new(parse(&a[2]))),
+        "net" => SVal::Net(NetVal::make(
+            a[1].as_str().unwrap(),
+            &unhex(a[2].as_str().unwrap()),
+            us(&a[3]) as u16,
+        )),
         t => panic!("bad tree tag {t}"),
     }
 }
@@ -267,6 +349,12 @@ fn unparse(v: &SVal) -> Value {
         ]),
         SVal::Struct(n, len, fs) => json!(["st", hx(n), len, flds(fs)]),
         SVal::StructVariant(n, i, var, len, fs) => json!(["sv", hx(n), i, hx(var), len, flds(fs)]),
+        SVal::CollectStr(frags) => json!(["cs", frags.iter().map(|f| hx(f)).collect::<Vec<_>>()]),
+        SVal::HumanReadable(a, b) => json!(["hr", unparse(a), unparse(b)]),
+        SVal::Net(nv) => {
+            let (k, o, p) = nv.parts();
+            json!(["net", k, hex(&o), p])
+        }
     }
 }
 
@@ -290,6 +378,15 @@ fn float_tokens(v: &SVal, out: &mut serde_json::Map<String, Value>) {
         }),
         SVal::Struct(_, _, fs) | SVal::StructVariant(_, _, _, _, fs) => {
             fs.iter().for_each(|(_, x)| float_tokens(x, out))
+        }
+        SVal::HumanReadable(a, b) => {
+            float_tokens(a, out);
+            float_tokens(b, out)
+        }
+        SVal::Net(nv) => {
+            // the Display text of the address (an opaque token for the model, like float texts)
+            let (k, o, p) = nv.parts();
+            out.insert(format!("net:{}:{}:{}", k, hex(&o), p), Value::String(hex(nv.text().as_bytes())));
         }
         _ => {}
     }
@@ -528,6 +625,26 @@ impl Sweep {
         }
     }
 
+    /// As `one`, and additionally every buffer size 0..=len+1: BufferTooSmall below the output
+    /// length, the same bytes from it on (never a shorter "success").
+    fn all_sizes(&mut self, v: &SVal) {
+        self.one(v, false);
+        let Ok(s) = serde_json::to_vec(v) else { return };
+        for n in 0..=s.len() + 1 {
+            self.count += 1;
+            let r = to_slice(v, &mut self.buf[..n]);
+            let ok = if n < s.len() {
+                r == Err(SerError::BufferTooSmall)
+            } else {
+                r == Ok(s.len()) && self.buf[..s.len()] == s[..]
+            };
+            if !ok {
+                self.fail(v, "wrong result at some buffer size (bytes or BufferTooSmall depend on the free space)");
+                return;
+            }
+        }
+    }
+
     fn finish(self, case: &Value) -> Value {
         json!({"id": case["id"], "job": case["job"], "count": self.count, "refused": self.refused,
                "nulls": self.nulls, "fails": self.fails})
@@ -750,6 +867,79 @@ fn job_f64(case: &Value) -> Value {
     sw.finish(case)
 }
 
+/// Display values through `collect_str`, in value and key positions, at every buffer size.
+fn job_collect(case: &Value) -> Value {
+    let mut sw = Sweep::new();
+    let alpha = ["", "a", "ab", "\"", "\\", "\n", "\u{1}", "é", "😀", "x\"y", "2024-01-02T03:04:05", "/:.-"];
+    let mut lists: Vec<Vec<String>> = Vec::new();
+    for a in alpha {
+        lists.push(vec![a.to_string()]);
+        for b in alpha {
+            lists.push(vec![a.to_string(), b.to_string()]);
+            for c in alpha {
+                lists.push(vec![a.to_string(), b.to_string(), c.to_string()]);
+            }
+        }
+    }
+    lists.push((0..40).map(|i| format!("{i}-")).collect());
+    lists.push(vec![]);
+    for l in lists {
+        let d = SVal::CollectStr(l);
+        sw.all_sizes(&d);
+        sw.all_sizes(&entry(d.clone()));
+        sw.all_sizes(&SVal::Map(None, vec![(SVal::Str("k".into()), SVal::U8(7)), (d.clone(), d.clone())]));
+        sw.all_sizes(&entry(SVal::NewtypeStruct("N", Box::new(d.clone()))));
+        sw.all_sizes(&SVal::Struct("S", 2, vec![("a", d.clone()), ("b", SVal::Seq(None, vec![d.clone(), d]))]));
+    }
+    sw.finish(case)
+}
+
+/// Types whose Serialize consults is_human_readable(): std::net and a probe, value and key.
+fn job_net(case: &Value) -> Value {
+    use std::net::{IpAddr, Ipv4Addr, Ipv6Addr, SocketAddr};
+    let mut sw = Sweep::new();
+    let mut rng = Rng(case["seed"].as_u64().unwrap_or(1));
+    let probe = SVal::HumanReadable(
+        Box::new(SVal::Str("human".into())),
+        Box::new(SVal::Tuple(2, vec![SVal::U8(1), SVal::U8(2)])),
+    );
+    sw.all_sizes(&probe);
+    sw.all_sizes(&entry(probe.clone()));
+    sw.all_sizes(&SVal::Seq(Some(2), vec![probe.clone(), probe]));
+    let mut v4s: Vec<Ipv4Addr> = vec![
+        Ipv4Addr::new(0, 0, 0, 0), Ipv4Addr::new(255, 255, 255, 255), Ipv4Addr::new(127, 0, 0, 1),
+        Ipv4Addr::new(192, 168, 1, 20), Ipv4Addr::new(9, 10, 99, 100), Ipv4Addr::new(101, 102, 103, 104),
+    ];
+    let mut v6s: Vec<Ipv6Addr> = vec![
+        Ipv6Addr::UNSPECIFIED, Ipv6Addr::LOCALHOST, Ipv6Addr::new(0x2001, 0xdb8, 0, 0, 0, 0, 0, 1),
+        Ipv6Addr::new(0xffff, 0xffff, 0xffff, 0xffff, 0xffff, 0xffff, 0xffff, 0xffff),
+        Ipv6Addr::new(0, 0, 0, 0, 0, 0xffff, 0xc0a8, 0x0114), Ipv6Addr::new(1, 0, 0, 2, 0, 0, 0, 3),
+        Ipv6Addr::new(0x1001, 0x1002, 0x1003, 0x1004, 0x1005, 0x1006, 0x1007, 0x1008),
+    ];
+    for _ in 0..case["n"].as_u64().unwrap_or(0) {
+        v4s.push(Ipv4Addr::from(rng.next() as u32));
+        let (a, b) = (rng.next(), rng.next());
+        let mask = if rng.next() % 2 == 0 { u128::MAX } else { (rng.next() as u128) << 64 | rng.next() as u128 };
+        v6s.push(Ipv6Addr::from((((a as u128) << 64) | b as u128) & mask));
+    }
+    let mut vals: Vec<NetVal> = Vec::new();
+    for a in &v4s {
+        let port = rng.next() as u16;
+        vals.extend([NetVal::V4(*a), NetVal::Ip(IpAddr::V4(*a)), NetVal::Sock(SocketAddr::new(IpAddr::V4(*a), port))]);
+    }
+    for a in &v6s {
+        let port = [0u16, 1, 80, 65535][(rng.next() % 4) as usize];
+        vals.extend([NetVal::V6(*a), NetVal::Ip(IpAddr::V6(*a)), NetVal::Sock(SocketAddr::new(IpAddr::V6(*a), port))]);
+    }
+    for nv in vals {
+        let v = SVal::Net(nv);
+        sw.one(&v, false);
+        sw.one(&entry(v.clone()), false);
+        sw.one(&SVal::Some(Box::new(v)), false);
+    }
+    sw.finish(case)
+}
+
 fn run_case(case: &Value) -> Value {
     match case["job"].as_str() {
         None => run_tree(case),
@@ -759,6 +949,8 @@ fn run_case(case: &Value) -> Value {
         Some("intswide") => job_intswide(case),
         Some("f32") => job_f32(case),
         Some("f64") => job_f64(case),
+        Some("collect") => job_collect(case),
+        Some("net") => job_net(case),
         Some(j) => panic!("unknown job {j}"),
     }
 }
